@@ -822,6 +822,20 @@ pub fn eval_vars(value: &str, context: &impl VariableMap) -> String {
             }
             result.push_str(prefix);
             let remain = &remain[1..]; // skip '$'
+            // `$$name` is the variable which `$name` names
+            if let Some(indirect) = remain.strip_prefix(VAR_PREFIX) {
+                let end = indirect
+                    .find(|c: char| !(c.is_alphanumeric() || c == '_'))
+                    .unwrap_or(indirect.len());
+                if let Some(target) = context
+                    .get_var(&indirect[..end])
+                    .and_then(|name| context.get_var(&name))
+                {
+                    result.push_str(&target);
+                    value = &indirect[end..];
+                    continue;
+                }
+            }
             if let Some(inner) = remain.strip_prefix(OPEN_BRACE) {
                 value = inner;
                 if let Some(end_idx) = value.find(END_BRACE) {
